@@ -153,13 +153,23 @@ theorem skeleton_agrees :
     `handle_ack` and touched by NO other method of Outbound (in particular closing a subchannel leaves the
     retransmit queue alone — the model's `queue` changes in `queueAndSend` and `handleAck` only), likewise
     `_queued_unsent`; `_highest_inbound_acked` starts at the integer -1 (`Side.init.high`) and
-    `is_record_old` is exactly `r.seqnum <= self._highest_inbound_acked` (`isRecordOld`). -/
+    `is_record_old` is exactly `r.seqnum <= self._highest_inbound_acked` (`isRecordOld`); the public entry
+    point `wormhole.create(…).dilate()` → `Boss.dilate` → `Dilator.dilate` → `Manager` →
+    `SubchannelDemultiplex` hands `expected_subprotocols` down unchanged with default `None`, and the
+    demultiplexer refuses an OPEN only when a collection was given — so with the default an OPEN nobody
+    listens for yet is HELD (`handleOpen`'s `pendOpens` branch), never refused. -/
 theorem structure_agrees :
     Gen.Flags.dcp_parked_queue_fifo = true ∧ Gen.Flags.subchannel_pending_per_instance = true ∧
     Gen.Flags.outbound_queue_touched_only_by_send_and_ack = true ∧
     Gen.Flags.queued_unsent_touched_only_by_known_methods = true ∧
     Gen.Flags.inbound_watermark_starts_at_minus_one = true ∧
-    Gen.Flags.is_record_old_is_plain_le = true := by
+    Gen.Flags.is_record_old_is_plain_le = true ∧
+    Gen.Flags.api_dilate_forwards_expected_subprotocols = true ∧
+    Gen.Flags.boss_dilate_forwards_expected_subprotocols = true ∧
+    Gen.Flags.dilator_dilate_forwards_expected_subprotocols = true ∧
+    Gen.Flags.manager_gets_expected_subprotocols = true ∧
+    Gen.Flags.demux_gets_expected_subprotocols = true ∧
+    Gen.Flags.demux_refuses_only_when_expected_given = true := by
   decide
 
 /-! ### above the ARQ: subchannels and late listeners (per-step theorems) -/
